@@ -1,7 +1,49 @@
 """C12 - failures are contained, reported and recovered from (DESIGN §5 C12), device layer: see props/C07.py"""
 import json, C07
+def recovery_stage(ctx, V, exe, n):
+    """`the daemon disconnects, reconnects and logs in again; actions still pending when the connection comes back are executed again from
+    their first statement; once the device behaves, new requests succeed`: a tcp device that drops the connection ONCE, in the middle of a
+    telnet sequence (IAC / IAC DO..WONT as its last bytes), right after it received a command, and is healthy from the next connection on.
+    The request must be re-sent on the new connection and succeed, and so must the next one (nothing of the dead connection - buffered
+    bytes, telnet parser position, script position - may survive into the new session)."""
+    import random, pmgen, pmcheck
+    scs = []
+    for i in range(n):
+        rng = random.Random(ctx.seed * 7919 + i)
+        cfg = pmgen.Config()
+        d0 = pmgen.Dev("d0", ["login", "on", "off", "status"], hardwired=["p1", "p2"], transport="tcp", timeout=rng.choice([4.0, 6.0]))
+        cfg.devs.append(d0); cfg.node_lines.append(("n0,n1", "d0", "p1,p2")); cfg.truth = {"d0": {"p1": "n0", "p2": "n1"}}
+        first = rng.choice([b"on n0\r\n", b"off n1\r\n", b"on n[0-1]\r\n", b"status n0\r\n"])
+        S = [("connect",), ("wait", 0), ("devmode", "d0", "iacclose"), ("send", 0, first), ("wait", 0), ("send", 0, b"status n[0-1]\r\n"), ("wait", 0)]
+        scs.append(pmcheck.Scenario(cfg, S, dict(style="c12-recovery", first=first.decode().strip())))
+
+    def mon_recovery(sess, sc):
+        bad = []
+        if not sess.alive_after_script or sess.wedged or sess.overrun:
+            return bad
+        reps = [r for r in (pmcheck.split_replies(sess.client_out.get(0, b"")) or []) if isinstance(r[0], int)]
+        codes = [r[0] for r in reps]
+        log = sess.devs["d0"].log
+        verb = sc.tags["first"].split()[0].upper()
+        dropped = [l for l in log if l[3] == "iacclose"]
+        again = [l for l in log if l[1].startswith(verb) and l[3] == "answered" and dropped and l[0] != dropped[0][0]]
+        if dropped and not again:
+            bad.append(("recovery", "not-rerun", "the device dropped the connection after receiving %s and was healthy from the next connection on, but the command never arrived again: device log %s | client %r" % (verb, log[:8], sess.client_out.get(0, b"")[-300:])))
+        if dropped and (len(codes) < 2 or not all(100 <= c < 200 for c in codes[:2])):
+            bad.append(("recovery", "request-failed", "the device dropped ONE connection (in the middle of a telnet sequence) and behaved afterwards; replies %s, expected the pending request re-run with success and the next request successful: %r" % (codes, sess.client_out.get(0, b"")[-400:])))
+        return bad
+    pmcheck.MONITORS["c12recovery"] = mon_recovery
+    pmcheck.run_batch(ctx, V, exe, scs, ["alive", "wedge", "c12recovery"], "c12rec")
+    V.count("recovery-histories", len(scs))
+
+
 def run(ctx, V):
-    C07.run_devlayer(ctx, V, ("timeout", "backoff", "timer", "count", "fifo", "login"), 260, 6000, ["alive", "c12", "c10", "protocol", "wedge"], ("faults",), 300,
+    exe = _run(ctx, V)
+    recovery_stage(ctx, V, exe, 12 if ctx.tier == "quick" else 200)
+
+
+def _run(ctx, V):
+    return C07.run_devlayer(ctx, V, ("timeout", "backoff", "timer", "count", "fifo", "login"), 260, 6000, ["alive", "c12", "c10", "protocol", "wedge"], ("faults",), 300,
                      "C12: a head past its deadline takes every queued client action with it (one failure completion each, none left queued); per pass at most one "
                      "connect attempt, only when retry_count = 0 or backoff(retry_count) elapsed (exact check against the previous pass's dump unless a request came in between).")
 def replay(ctx, V, path):
